@@ -69,3 +69,18 @@ package client
 //@   may-panic
 //@   opaque-callee ToBatchCommandsRequest FromBatchCommandsResponse formatBatchRequestTimeoutReason
 //@   at return assert once: defined(timer) ==> timer.arms == 1 && timer.dur == mathint(timeout)
+
+// Failing the pending requests of one (possibly forwarded) stream: the visitor fails exactly the visited entry under its
+// own id when - and only when - the entry was sent through that stream (same forwarded host), and never stops the visit
+// early; closing the client fails the asynchronous ones the same way.
+//@ func (*batchCommandsClient) failPendingRequests$1
+//@   prop C18
+//@   may-panic
+//@   at call(failRequest) assert own: typeIs(key, uint64) && typeIs(value, *batchCommandsEntry) ==> arg_requestID == key.(uint64) && arg_entry == value.(*batchCommandsEntry) && arg_err == err && value.(*batchCommandsEntry).forwardedHost == forwardedHost
+//@   ensures all: result
+//@ func (*batchCommandsClient) failAsyncRequestsOnClose$1
+//@   prop C18
+//@   may-panic
+//@   opaque-callee async
+//@   at call(failRequest) assert own: typeIs(key, uint64) && typeIs(value, *batchCommandsEntry) ==> arg_requestID == key.(uint64) && arg_entry == value.(*batchCommandsEntry) && arg_err == err
+//@   ensures all: result
